@@ -43,7 +43,7 @@ func (*intScalar) CoerceIn(v interface{}) (interface{}, error) {
 	case nil:
 		// remains nil
 	case int:
-		v = int32(tv)
+		v, err = intFromInt64(int64(tv))
 	case int8:
 		v = int32(tv)
 	case int16:
@@ -51,22 +51,25 @@ func (*intScalar) CoerceIn(v interface{}) (interface{}, error) {
 	case int32:
 		// ok as is
 	case int64:
-		v = int32(tv)
+		v, err = intFromInt64(tv)
 	case uint:
-		v = int32(tv)
+		v, err = intFromUint64(uint64(tv))
 	case uint8:
 		v = int32(tv)
 	case uint16:
 		v = int32(tv)
 	case uint32:
-		v = int32(tv)
+		v, err = intFromUint64(uint64(tv))
 	case uint64:
-		v = int32(tv)
+		v, err = intFromUint64(tv)
 	case float64:
-		// Needed for nested types since the go JSON parser always emits float64 even if an integer.
-		v = int32(tv)
-		if float64(int32(tv)) != tv {
+		// Needed for nested types since the go JSON parser always emits
+		// float64 even if an integer. Only whole numbers in range are an Int.
+		if math.MinInt32 <= tv && tv <= math.MaxInt32 && float64(int32(tv)) == tv {
+			v = int32(tv)
+		} else {
 			err = newCoerceErr(v, "Int")
+			v = nil
 		}
 	default:
 		err = newCoerceErr(v, "Int")
